@@ -27,6 +27,9 @@ INTERESTING = [0, 1, -1, 2, 5, 100, -100, 127, 128, 255, 256, -128, -129, 32767,
 
 
 def int_range(tp):
+    if tp[0] == "bits":
+        _, n, signed = tp
+        return (-(1 << (n - 1)), (1 << (n - 1)) - 1) if signed else (0, (1 << n) - 1)
     size, signed = tp
     if signed:
         return -(1 << (8 * size - 1)), (1 << (8 * size - 1)) - 1
@@ -109,7 +112,45 @@ def make_unit(rng, uid, for_verify=False):
                 tname = rng.choice(["signed char", "unsigned char", "short", "uint16_t", "int8_t"])
                 ln = None if rng.random() < 0.4 else rng.randint(1, 3)
             fields.append({"name": "f%d" % j, "type": tname, "len": ln})
-        u["structs"].append({"name": "s%d_%d" % (uid, i), "union": is_union, "fields": fields, "partial": False})
+        u["structs"].append({"name": "s%d_%d" % (uid, i), "union": is_union, "fields": fields, "partial": False,
+                             "packed": False})
+    # a packed struct in every unit: misaligned fields of different sizes, declared with cdef(..., packed=True)
+    # against __attribute__((packed)) in the C source
+    i = nstructs
+    pf = [{"name": "f0", "type": rng.choice(["char", "signed char", "uint8_t"]), "len": None},
+          {"name": "f1", "type": rng.choice(["int", "long", "uint32_t", "int64_t", "double"]), "len": None},
+          {"name": "f2", "type": rng.choice(["short", "uint16_t", "unsigned char"]), "len": rng.choice([None, 3])},
+          {"name": "f3", "type": rng.choice(["long", "unsigned int", "void *", "float"]), "len": None}]
+    for j in range(4, rng.randint(4, 7)):
+        r = rng.random()
+        if r < 0.6:
+            pf.append({"name": "f%d" % j, "type": rng.choice(INT_NAMES), "len": None if rng.random() < 0.7 else rng.randint(1, 4)})
+        elif r < 0.8:
+            pf.append({"name": "f%d" % j, "type": struct_tag(u["structs"][rng.randrange(nstructs)]), "len": None})
+        else:
+            pf.append({"name": "f%d" % j, "type": rng.choice(sorted(OTHERS)), "len": None})
+    u["structs"].append({"name": "s%d_%d" % (uid, i), "union": False, "fields": pf, "partial": False, "packed": True})
+    if not for_verify:
+        # bit-fields inside a checked struct (their positions are computed by cffi, the total size is checked)
+        bt = [rng.choice(["int", "unsigned int", "unsigned char", "short", "long", "unsigned long long"]) for _ in range(3)]
+        bw = [rng.randint(1, min(8 * INTS[t][0], 17)) for t in bt]
+        pre, post = rng.choice(INT_NAMES), rng.choice(INT_NAMES)
+        body = "%s a; %s b0:%d; %s b1:%d; %s m; %s b2:%d; %s z;" % (pre, bt[0], bw[0], bt[1], bw[1], rng.choice(["char", "short"]),
+                                                                   bt[2], bw[2], post)
+        mt = body.split(";")[3].split()[0]
+        u["structs"].append({"name": "s%d_%d" % (uid, i + 1), "union": False, "partial": False, "packed": False,
+                             "special": "bitfield", "body": body,
+                             "fields": [{"name": "a", "type": pre, "len": None}, {"name": "m", "type": mt, "len": None},
+                                        {"name": "z", "type": post, "len": None}],
+                             "bits": [{"name": "b%d" % k, "type": bt[k], "len": None, "bits": bw[k]} for k in range(3)]})
+        # an anonymous nested struct/union: never checked, the compiler's layout is adopted
+        inner_kw = rng.choice(["struct", "union"])
+        t1, t2, t3, t4 = (rng.choice(INT_NAMES) for _ in range(4))
+        body = "%s a; %s { %s x; %s y; }; %s z;" % (t1, inner_kw, t2, t3, t4)
+        u["structs"].append({"name": "s%d_%d" % (uid, i + 2), "union": False, "partial": False, "packed": False,
+                             "special": "anon", "body": body,
+                             "fields": [{"name": "a", "type": t1, "len": None}, {"name": "x", "type": t2, "len": None},
+                                        {"name": "y", "type": t3, "len": None}, {"name": "z", "type": t4, "len": None}]})
     used = set()
 
     def fresh_value(pool=INTERESTING):
@@ -175,8 +216,27 @@ def struct_tag(s):
     return ("union " if s["union"] else "struct ") + s["name"]
 
 
+def all_scalar(s):
+    """Named members reachable as p->name: the plain fields and the bit-fields."""
+    return s["fields"] + s.get("bits", [])
+
+
 def int_scalar_fields(unit, s):
-    return [f for f in s["fields"] if f["len"] is None and resolve_int(unit, f["type"]) is not None]
+    return [f for f in all_scalar(s) if f["len"] is None and resolve_int(unit, f["type"]) is not None]
+
+
+def struct_body(s, dots=False):
+    if "body" in s:
+        return s["body"]
+    return " ".join(field_decl(f, dots and f.get("dots_len", False)) for f in s["fields"])
+
+
+def value_type(unit, f):
+    """(size, signed) describing the values a field can hold (bit-fields: their width)."""
+    size, signed = resolve_int(unit, f["type"])
+    if "bits" in f:
+        return ("bits", f["bits"], signed)
+    return (size, signed)
 
 
 def helper_decls(orig):
@@ -206,7 +266,7 @@ def accessor_decls(unit, orig):
     declared for integer scalar fields that the (possibly mutated) cdef still has with the C type."""
     d = []
     for s, so in zip(unit["structs"], orig["structs"]):
-        of = {f["name"]: f for f in so["fields"]}
+        of = {f["name"]: f for f in all_scalar(so)}
         for f in int_scalar_fields(unit, s):
             if f["name"] in of and of[f["name"]]["type"] == f["type"] and of[f["name"]]["len"] is None:
                 d.append("%s verif_getf_%s_%s(%s *);" % (f["type"], s["name"], f["name"], struct_tag(s)))
@@ -231,7 +291,8 @@ def render_csource(orig):
     for td in orig["typedefs"]:
         L.append("typedef %s %s;" % (td["base"], td["name"]))
     for s in orig["structs"]:
-        L.append("%s { %s };" % (struct_tag(s), " ".join(field_decl(f) for f in s["fields"])))
+        kw, nm = struct_tag(s).split()
+        L.append("%s %s%s { %s };" % (kw, "__attribute__((packed)) " if s.get("packed") else "", nm, struct_body(s)))
     for k in orig["defines"]:
         L.append("#define %s %s" % (k["name"], c_literal(k["value"])))
     for e in orig["enums"]:
@@ -270,17 +331,26 @@ def render_csource(orig):
 
 
 def render_cdef(unit, orig):
-    L = []
+    """The cdef as a list of chunks [text, packed]: `ffi.cdef(text, packed=packed)` in this order."""
+    chunks = []
+
+    def add(text, packed=False):
+        if chunks and chunks[-1][1] == packed:
+            chunks[-1][0] += text + "\n"
+        else:
+            chunks.append([text + "\n", packed])
+
     for td in unit["typedefs"]:
         if td.get("dots"):
-            L.append("typedef int... %s;" % td["name"])
+            add("typedef int... %s;" % td["name"])
         else:
-            L.append("typedef %s %s;" % (td["base"], td["name"]))
+            add("typedef %s %s;" % (td["base"], td["name"]))
     for s in unit["structs"]:
-        body = " ".join(field_decl(f, f.get("dots_len", False)) for f in s["fields"])
+        body = struct_body(s, dots=True)
         if s["partial"]:
             body += " ...;"
-        L.append("%s { %s };" % (struct_tag(s), body))
+        add("%s { %s };" % (struct_tag(s), body), bool(s.get("cdef_packed", s.get("packed"))))
+    L = []
     for k in unit["defines"]:
         L.append("#define %s %s" % (k["name"], "..." if k["dots"] else k["value"]))
     for e in unit["enums"]:
@@ -303,7 +373,17 @@ def render_cdef(unit, orig):
         L.append("%s %s(%s);" % (fn["ret"], fn["name"], ", ".join(fn["args"])))
     L.extend(helper_decls(orig))
     L.extend(accessor_decls(unit, orig))
-    return "\n".join(L) + "\n"
+    add("\n".join(L))
+    return chunks
+
+
+def apply_cdef(ffi, cdef):
+    """cdef is a str or a list of [text, packed] chunks."""
+    if isinstance(cdef, str):
+        ffi.cdef(cdef)
+    else:
+        for text, packed in cdef:
+            ffi.cdef(text, packed=bool(packed))
 
 
 # ------------------------------------------------------------------ variants
@@ -314,7 +394,11 @@ def dots_variant(rng, orig, enums_partial=True):
     for td in u["typedefs"]:
         td["dots"] = True
     for s in u["structs"]:
+        if s.get("special"):
+            continue
         s["partial"] = True
+        if s.get("packed"):
+            s["cdef_packed"] = rng.random() < 0.5      # with "...;" the pack declaration is not needed
         keep = [f for f in s["fields"] if rng.random() < 0.7] or [rng.choice(s["fields"])]
         rng.shuffle(keep)
         for f in keep:
@@ -333,14 +417,16 @@ def dots_variant(rng, orig, enums_partial=True):
     return u
 
 
-MUTATIONS = ["field-type", "swap-fields", "array-len", "define-value", "enum-value", "drop-field"]
+MUTATIONS = ["field-type", "swap-fields", "array-len", "define-value", "enum-value", "drop-field",
+             "packed-swap-fields", "packed-drop-field"]
 
 
 def mutate(rng, orig, kind):
     """Returns (mutated unit, description) -- description names the touched item."""
     u = copy.deepcopy(orig)
     u["variant"] = kind
-    checked = [s for s in u["structs"]]
+    checked = [s for s in u["structs"] if not s.get("special") and not s.get("packed")]
+    packed = [s for s in u["structs"] if s.get("packed")]
     if kind == "field-type":
         cands = [(s, f) for s in checked for f in s["fields"] if f["type"] in INTS]
         last = [(s, f) for s, f in cands if f is s["fields"][-1]]
@@ -364,6 +450,21 @@ def mutate(rng, orig, kind):
     elif kind == "drop-field":
         s = rng.choice([s for s in checked if len(s["fields"]) >= 2])
         i = len(s["fields"]) - 1 if rng.random() < 0.6 else rng.randrange(len(s["fields"]))
+        d = {"struct": s["name"], "dropped": s["fields"][i]["name"]}
+        del s["fields"][i]
+    elif kind == "packed-swap-fields":
+        s = rng.choice(packed)
+        sz = lambda f: (resolve_int(u, f["type"]) or OTHERS.get(f["type"]) or (0, 0))[0] * (f["len"] or 1)
+        pairs = [(i, j) for i in range(len(s["fields"])) for j in range(i + 1, len(s["fields"]))
+                 if sz(s["fields"][i]) != sz(s["fields"][j])]
+        i, j = rng.choice(pairs)
+        s["fields"][i], s["fields"][j] = s["fields"][j], s["fields"][i]
+        d = {"struct": s["name"], "swapped": [s["fields"][i]["name"], s["fields"][j]["name"]]}
+    elif kind == "packed-drop-field":
+        # the C struct has one more member than the cdef: at the end (only the total size differs) or in
+        # the middle (a "pad" the cdef does not know: later offsets differ)
+        s = rng.choice(packed)
+        i = len(s["fields"]) - 1 if rng.random() < 0.5 else rng.randrange(1, len(s["fields"]) - 1)
         d = {"struct": s["name"], "dropped": s["fields"][i]["name"]}
         del s["fields"][i]
     elif kind == "define-value":
@@ -405,6 +506,8 @@ def natural_layout(unit, s, facts):
     off, mx, al, offs, sizes = 0, 0, 1, {}, {}
     for f in s["fields"]:
         sz, a = field_size_align(unit, f, facts)
+        if s.get("packed"):
+            a = 1
         if s["union"]:
             off = 0
         off = (off + a - 1) // a * a
@@ -581,10 +684,10 @@ def probes_for(rng, unit, orig, facts, skip_structs=(), skip_consts=(), ncalls=6
         for f in s["fields"]:
             P.append((key, {"k": "offsetof", "tag": tag, "field": f["name"]}, facts["offsetof:%s.%s" % (s["name"], f["name"])]))
             P.append((key, {"k": "fsize", "tag": tag, "field": f["name"]}, facts["fsize:%s.%s" % (s["name"], f["name"])]))
-        of = {f["name"]: f for so in orig["structs"] if so["name"] == s["name"] for f in so["fields"]}
+        of = {f["name"]: f for so in orig["structs"] if so["name"] == s["name"] for f in all_scalar(so)}
         for f in int_scalar_fields(unit, s):
             if f["name"] in of and of[f["name"]]["type"] == f["type"] and of[f["name"]]["len"] is None:
-                tp = resolve_int(unit, f["type"])
+                tp = value_type(unit, f)
                 v = gen_value(rng, tp)
                 P.append((key, {"k": "fwrite", "tag": tag, "sname": s["name"], "field": f["name"], "v": v}, v))
                 v = gen_value(rng, tp)
@@ -656,7 +759,7 @@ def emit_api(cdef, csource, modname, outdir, includes=()):
     ffi = cffi.FFI()
     for inc in includes:
         ffi.include(inc)
-    ffi.cdef(cdef)
+    apply_cdef(ffi, cdef)
     ffi.set_source(modname, csource)
     cpath = os.path.join(outdir, modname + ".c")
     quiet(lambda: ffi.emit_c_code(cpath))
